@@ -278,6 +278,27 @@ public class BigZ {
         for (int i = 0; i < s.length(); i++) { int k = alpha.indexOf(s.charAt(i)); if (k < 0 || k >= b) return N(i); }
         return N(s.length());
     }
+    static BigInteger[] seqZ(Value v) {
+        TupleValue t = (TupleValue) v.toTuple();
+        BigInteger[] r = new BigInteger[t.elems.length];
+        for (int i = 0; i < r.length; i++) r[i] = Z(t.elems[i]);
+        return r;
+    }
+    public static Value SeqBitOnes(Value sv, Value bv) {
+        BigInteger[] s = seqZ(sv); int b = I(bv), c = 0;
+        for (BigInteger x : s) if (x.testBit(b)) c++;
+        return N(c);
+    }
+    public static Value SeqBitAgree(Value sv, Value bv, Value lv) {
+        BigInteger[] s = seqZ(sv); int b = I(bv), lag = I(lv), c = 0;
+        for (int i = 0; i + lag < s.length; i++) if (s[i].testBit(b) == s[i + lag].testBit(b)) c++;
+        return N(c);
+    }
+    public static Value SeqBucket(Value sv, Value shv, Value bv) {
+        BigInteger[] s = seqZ(sv); int sh = I(shv), c = 0; BigInteger b = Z(bv);
+        for (BigInteger x : s) if (x.shiftRight(sh).equals(b)) c++;
+        return N(c);
+    }
     public static Value StrStripWS(Value sv) {
         String s = ((StringValue) sv).val.toString(); StringBuilder sb = new StringBuilder();
         for (int i = 0; i < s.length(); i++) { char c = s.charAt(i); if (c != ' ' && c != '\t' && c != '\n' && c != '\r' && c != '\f') sb.append(c); }
